@@ -16,3 +16,6 @@ def run(ctx):
     r.not_decided = ["everything computed by Biopython's reverse_complement/_flip"]
     revcomp_wrapper_rule(ctx, "C14.revcomp")
     ctor_rule(ctx, "C14.copy-ctor")
+    # commutation with rotation rests on the rotation kernels
+    from ..kernels import run_kernels
+    run_kernels(ctx, ["K3", "K5"], "C14")
